@@ -11,6 +11,8 @@ namespace {
 
 template <typename D>
 void checkAll(Case& c, D& d, const std::deque<int>& m, unsigned CS, bool tracked) {
+  if (!c.regOk())
+    return;
   const D& cd = d;
   c.eq("size", d.size(), m.size());
   c.eq("empty", d.empty(), m.empty());
@@ -170,8 +172,10 @@ void run_gdeque(Case& c) {
   bool mid      = c.rng.below(2) == 0; // insertion in the middle enabled
   unsigned nops = c.pickOps();
   std::string cfg = "cs" + std::to_string(cs) + (tracked ? "|tracked" : "|pod") + (mid ? "|mid" : "|ends");
-  c.begin("gdeque", cfg,
-          J().kv("chunk", cs).kv("elem", tracked ? "tracked" : "pod").kv("emplace_in_middle", mid).kv("nops", nops));
+  if (!c.begin("gdeque", cfg,
+          J().kv("chunk", cs).kv("elem", tracked ? "tracked" : "pod").kv("emplace_in_middle", mid).kv("nops", nops),
+               mid ? "emplace-in-middle" : ""))
+    return;
   if (tracked)
     runCS<Tracked>(c, cs, mid, nops);
   else
